@@ -690,14 +690,7 @@ pub mod ss {
         }
     }
     // --- record_finished may add files and replace one build's discovered inputs; nothing the scheduler looks at
-    pub open spec fn graph_ext(g0: Graph, g1: Graph) -> bool {
-        &&& gs::builds(g1).len() == gs::builds(g0).len()
-        &&& forall|b: int| 0 <= b < gs::builds(g0).len() ==> (#[trigger] gs::builds(g1)[b]).ins == gs::builds(g0)[b].ins
-                && gs::builds(g1)[b].outs == gs::builds(g0)[b].outs && gs::builds(g1)[b].pool == gs::builds(g0)[b].pool
-                && (gs::builds(g1)[b].cmdline is None) == (gs::builds(g0)[b].cmdline is None)
-        &&& gs::files(g1).len() >= gs::files(g0).len()
-        &&& forall|f: int| 0 <= f < gs::files(g0).len() ==> (#[trigger] gs::files(g1)[f]).input == gs::files(g0)[f].input
-    }
+    pub open spec fn graph_ext(g0: Graph, g1: Graph) -> bool { gs::graph_ext(g0, g1) }
     pub proof fn lemma_graph_ext(g0: Graph, g1: Graph, bs: BuildStates)
         requires bs_inv(g0, bs), gs::wf_graph(g1), graph_ext(g0, g1)
         ensures bs_inv(g1, bs)
